@@ -151,6 +151,8 @@ class FeatureIDEReader(TextToModel):
     def _parse_rule(self, rule: Element) -> AST:
         """Return the representation of the constraint (rule) in the AST syntax."""
         if rule.tag == FeatureIDEReader.TAG_VAR:
+            if rule.text is None:
+                raise FlamaException("A <var> element without a feature name.")
             node = Node(rule.text)
         elif rule.tag == FeatureIDEReader.TAG_NOT:
             node = Node(ASTOperation.NOT)
